@@ -338,7 +338,7 @@ func runC02(c *Ctx) {
 	c.AddCount("product_calls", int64(len(calls)))
 	c.ParallelFor(int64(len(calls)), func(w *Worker, i int64) { c02check(w, m(), calls[i], routeS, i) })
 	o := fullOpts()
-	n := c.pick(700000, 30000000)
+	n := c.pick(1500000, 30000000)
 	c.ParallelFor(n, func(w *Worker, i int64) {
 		r := newRng(c.Seed, 0xc02, uint64(i))
 		call := randCall(r, o)
